@@ -35,6 +35,8 @@ MUTANTS = [
     ("unfix-F14c-decline", ["C16"], ["unfix_F14c_decline.diff"], []),
     ("unfix-F17-epoch-hint-by-hash", ["C17"], ["unfix_F17_epoch_hint_by_hash.diff"], []),
     ("unfix-F18-welcome-id-late", ["C16", "C06"], ["unfix_F18_welcome_id_late.diff"], []),
+    ("c16-welcome-admin-limit-stricter-than-group", ["C16", "C06"], [], [(MEM + "lib.rs", "pub const DEFAULT_MAX_ADMINS_PER_WELCOME: usize = 100;", "pub const DEFAULT_MAX_ADMINS_PER_WELCOME: usize = 50;")]),
+    ("c16-sqlite-welcome-name-limit-stricter", ["C16", "C06"], [], [(SQL + "welcomes.rs", "validate_string_length(&welcome.group_name, MAX_GROUP_NAME_LENGTH, \"Group name\")", "validate_string_length(&welcome.group_name, MAX_GROUP_NAME_LENGTH / 2, \"Group name\")")]),
     ("c01-comparator-le", ["C01", "C07"], [], [(CORE + "epoch_snapshots.rs", "if candidate_ts < snapshot.applied_commit_ts {", "if candidate_ts <= snapshot.applied_commit_ts {")]),
     ("c01-id-tiebreak-le", ["C01", "C07"], [], [(CORE + "epoch_snapshots.rs", "if candidate_id.to_hex() < snapshot.applied_commit_id.to_hex() {", "if candidate_id.to_hex() <= snapshot.applied_commit_id.to_hex() {")]),
     ("c03-no-eviction-return", ["C03"], [], [(CORE + "messages/commit.rs", """        if mls_group.own_leaf().is_none() {
@@ -840,6 +842,7 @@ EQ = os.path.join(HERE, "equiv")
 
 # behaviour-preserving refactors: every listed check must stay SILENT (exit 0) on them — a check that fires here is a false alarm
 EQUIV = [
+    ("eq-sqlite-welcome-validation-helper", ["C16", "C06", "C10", "C12"], [os.path.join(EQ, "sqlite_welcome_validation_helper.diff")], []),
     ("eq-memory-sort-by-key", ["C18", "C10", "C06"], [os.path.join(EQ, "memory_sort_by_key.diff")], []),
     ("eq-unrelated-additions", ["C%02d" % i for i in range(1, 21)], [os.path.join(EQ, "unrelated_additions.diff")], []),
     ("eq-lookup-and-persist-helpers", ["C01", "C02", "C03", "C06", "C07", "C08", "C14", "C16"], [os.path.join(EQ, "lookup_and_persist_helpers.diff")], []),
